@@ -329,3 +329,89 @@ Theorem C12_avl_inv_server : forall n prog d k z,
   db_get d k = Some (VZSet z) -> zset_inv z /\ zroot z <> Leaf.
 Proof. intros n prog d k z Hd G. exact (AllInv.run_srv_init_value n prog d k (VZSet z) Hd G). Qed.
 Print Assumptions C12_avl_inv_server.
+
+(* ---------------------------------------------------------------- scores as text (Mem/ZSetsScores.v, ZSetsScoresAll.v)
+   The scores the model can store are the normal forms [snormal] (no trailing zero in the
+   fraction, zero is 0*10^0, the two infinities): parse_score and score_add return nothing else
+   (C12_score_order_numeric), and after ANY sequence of commands of ANY family every score in every
+   stored sorted set is one. *)
+Require Mem.ZSetsScores Mem.ZSetsScoresAll.
+
+Theorem C12_stored_scores_normal : forall (prog : list (Z * Z * list bytes * reply)) (k m : bytes) (z : zset) (sc : score),
+  db_get (run_cmds prog empty_db) k = Some (VZSet z) -> alookup m (zdict z) = Some sc -> snormal sc.
+Proof.
+  intros prog k m z sc G H.
+  exact (ZSetsScoresAll.scores_normal_all_commands prog empty_db db_wf_empty
+           ZSetsScoresAll.db_scores_normal_empty k (VZSet z) G m sc H).
+Qed.
+Print Assumptions C12_stored_scores_normal.
+
+(* every score the model can store prints (formatScore) to bytes that parse back (ParseFloat on the
+   decimal domain) to the same score *)
+Theorem C12_score_print_parse_roundtrip : forall s : score,
+  snormal s -> parse_score (score_to_bytes s) = Some s.
+Proof. exact ZSetsScores.score_print_parse. Qed.
+Print Assumptions C12_score_print_parse_roundtrip.
+
+(* ZRANGE ... WITHSCORES replies member, printed score, ... over dictionary entries, and each printed
+   score parses back to exactly the stored score *)
+Theorem C12_zrange_withscores_reparse :
+  forall (d : db) (name k a b : bytes) (optl : list bytes) (o : ropts) (z : zset) (s e : Z),
+  get_zset d k = ZFound z -> zset_inv z -> ZSetsScoresAll.zset_scores_normal z ->
+  atoi64 a = Some s -> atoi64 b = Some e ->
+  zrange_opts optl ropts0 = ROk o -> r_bylex o = false -> r_limit o = false -> r_ws o = true ->
+  exists W : list (bytes * score),
+    exec_zrange d (name :: k :: a :: b :: optl) =
+      (RArr (flat_map (fun p => [RBulk (fst p); RBulk (score_to_bytes (snd p))]) W), d) /\
+    Forall (fun p => alookup (fst p) (zdict z) = Some (snd p) /\
+                     parse_score (score_to_bytes (snd p)) = Some (snd p)) W.
+Proof. exact ZSetsScoresAll.zrange_withscores_reparse. Qed.
+Print Assumptions C12_zrange_withscores_reparse.
+
+(* ZADD ... INCR (not blocked): the bulk reply parses back to the score the member now carries *)
+Theorem C12_zadd_incr_reply_reparse : forall (o : zopts) (a : zacc) (sc : score) (m : bytes) (a' : zacc),
+  snormal sc -> ZSetsScoresAll.zset_scores_normal (a_z a) -> zadd_step o a (sc, m) = Some a' -> a' <> a ->
+  exists new, a_incr a' = Some new /\ alookup m (zdict (a_z a')) = Some new /\
+              parse_score (score_to_bytes new) = Some new.
+Proof. exact ZSetsScoresAll.zadd_incr_reply_reparse. Qed.
+Print Assumptions C12_zadd_incr_reply_reparse.
+
+(* non-vacuity: normal forms print and re-parse; a non-normal representation (10*10^-1) would not,
+   which is why the model never builds one *)
+Example C12_ex_roundtrip :
+  score_to_bytes (SFin (-25) 1) = B "-2.5" /\ parse_score (B "-2.5") = Some (SFin (-25) 1) /\
+  score_to_bytes (SFin 5 3) = B "0.005" /\ parse_score (B "0.005") = Some (SFin 5 3) /\
+  parse_score (score_to_bytes SNegInf) = Some SNegInf /\
+  parse_score (score_to_bytes (SFin 10 1)) = Some (SFin 1 0) /\ snormal (SFin (-25) 1).
+Proof. vm_compute. repeat split; try reflexivity; try (intros H; discriminate H). intros _ H; discriminate H. Qed.
+
+(* ---------------------------------------------------------------- ZRANGE options that are not supported
+   BYSCORE, BYLEX and LIMIT (and any word other than WITHSCORES / REV) anywhere among the options:
+   the reply is an error and nothing changes, whatever the key holds (missing, other type, sorted
+   set) and whatever start and stop are. *)
+Theorem C12_zrange_unsupported_option_rejected : forall (d : db) (name k a b : bytes) (optl : list bytes),
+  existsb (fun w => negb (zrange_supported w)) optl = true ->
+  exec_zrange d (name :: k :: a :: b :: optl) = (err_other, d).
+Proof. exact exec_zrange_unsupported. Qed.
+Print Assumptions C12_zrange_unsupported_option_rejected.
+
+Theorem C12_zrange_by_words_unsupported :
+  forallb (fun w => negb (zrange_supported w))
+          [B "byscore"; B "BYSCORE"; B "bylex"; B "ByLex"; B "limit"; B "LIMIT"] = true.
+Proof. exact zrange_by_words_unsupported. Qed.
+Print Assumptions C12_zrange_by_words_unsupported.
+
+(* conversely an option list of WITHSCORES / REV words only is accepted, and the accepted options
+   never carry a BYLEX or LIMIT flag (the two hypotheses of C12_zrange_sorted_exact always hold) *)
+Theorem C12_zrange_options_exact : forall (l : list bytes),
+  (forallb zrange_supported l = true -> exists o, zrange_opts l ropts0 = ROk o) /\
+  (forall o, zrange_opts l ropts0 = ROk o -> r_bylex o = false /\ r_limit o = false) /\
+  zrange_opts l ropts0 <> RByScore.
+Proof. exact zrange_options_exact. Qed.
+Print Assumptions C12_zrange_options_exact.
+
+Example C12_ex_byscore_rejected :
+  fst (cmd d312 [B "zrange"; B "z"; B "0"; B "10"; B "BYSCORE"]) = err_other /\
+  fst (cmd d312 [B "zrange"; B "z"; B "0"; B "1"; B "rev"; B "limit"; B "0"; B "1"]) = err_other /\
+  fst (cmd d312 [B "zrange"; B "nokey"; B "a"; B "b"; B "bylex"]) = err_other.
+Proof. vm_compute. repeat split; reflexivity. Qed.
